@@ -294,29 +294,45 @@ class Run:
         out = []
         ctys = [i for i, k in enumerate(self.kinds) if k in ('c', 'ctrl')]
         ptys = [i for i, k in enumerate(self.kinds) if k in ('p', 'upd')]
-        for t in ctys:
+
+        def q(fn):
+            # a query that raises is an observation (`!<exception>`), never a harness failure
+            try:
+                return fn()
+            except Exception as ex:     # noqa
+                return f'!{type(ex).__name__}'
+
+        def get_line(t):
             pairs = sorted(ent_code(e) * 100000 + c._oid for e, c in w.get(self.classes[t]))
-            out.append(f'get {t} ' + (','.join(f'{p // 100000}:{p % 100000}' for p in pairs) or '-'))
+            return ','.join(f'{p // 100000}:{p % 100000}' for p in pairs) or '-'
+
+        def has_line(pe, t):
+            c = w.get_component(pe, self.classes[t])
+            return f'{int(w.has_component(pe, self.classes[t]))} {"None" if c is None else c._oid}'
+
+        def gp_line(t):
+            p = w.get_processor(self.classes[t])
+            return "None" if p is None else str(p._oid)
+
+        for t in ctys:
+            out.append(f'get {t} ' + q(lambda: get_line(t)))
         for e in self.ents:
             pe = ent_py(e)
-            out.append(f'row {e} ' + (','.join(map(str, sorted(c._oid for c in w.get_components(pe)))) or '-'))
-            out.append(f'exists {e} {int(w.entity_exists(pe))}')
+            out.append(f'row {e} ' + q(lambda: ','.join(map(str, sorted(c._oid for c in w.get_components(pe)))) or '-'))
+            out.append(f'exists {e} ' + q(lambda: str(int(w.entity_exists(pe)))))
             for t in ctys:
-                c = w.get_component(pe, self.classes[t])
-                out.append(f'has {e} {t} {int(w.has_component(pe, self.classes[t]))} '
-                           f'{"None" if c is None else c._oid}')
-        out.append('entities ' + (','.join(map(str, sorted(ent_code(e) for e in w.entities))) or '-'))
-        out.append('procs ' + (','.join(str(p._oid) for p in w.processors) or '-'))
+                out.append(f'has {e} {t} ' + q(lambda: has_line(pe, t)))
+        out.append('entities ' + q(lambda: ','.join(map(str, sorted(ent_code(e) for e in w.entities))) or '-'))
+        out.append('procs ' + q(lambda: ','.join(str(p._oid) for p in w.processors) or '-'))
         for t in ptys:
-            p = w.get_processor(self.classes[t])
-            out.append(f'gp {t} {"None" if p is None else p._oid}')
+            out.append(f'gp {t} ' + q(lambda: gp_line(t)))
         out.append('pw ' + (','.join(str(o) for o in sorted(
-            oid for oid, ob in self.objs.items() if isinstance(ob, desper.Processor) and ob.world is w)) or '-'))
+            oid for oid, ob in self.objs.items() if desper.Processor in type(ob).__mro__ and ob.world is w)) or '-'))
         for oid, ob in self.objs.items():
             if hasattr(ob, '__events__'):
-                out.append(f'ish {oid} {int(w.is_handler(ob))}')
+                out.append(f'ish {oid} ' + q(lambda: str(int(w.is_handler(ob)))))
         for oid, ob in self.objs.items():
-            if isinstance(ob, desper.Controller):
+            if desper.Controller in type(ob).__mro__:
                 ok = ob.world is w or ob.world is None
                 out.append(f'ctl {oid} {"None" if ob.entity is None else ent_code(ob.entity)}'
                            + ('' if ok else ' wrong-world'))
